@@ -42,7 +42,7 @@ DEFAULTS: Dict[str, Any] = dict(
     max_depth=3, ops_per_step=(2, 5), big_corr=False, autograd=False, bwd_annotation=True, step_gap=(0, 1, 1, 7),
     pre_ops=1, post_ops=1, first_step=None, file_order="time", p_plain_rt=0.08, kernel_durs=(0, 1, 5, 20, 60),
     launch_lat=(0, 0, 1, 3, 10), queue_lat=(0, 0, 1, 5, 40), device_pid=0, repeat_names=False, annotation_nest=False,
-    p_leaf_children=(0, 3), ops_pool=None, p_unlaunched=0.0, sync_straddle=False, source_counters=False, outer_frame=False, corr_zero=False, small_corr=False, tid_base=None, tid_desc=False, post_launch=False, exotic_launch=False, multi_process=False, graph_launch=False, p_zero_launch=0.0, nested_driver=False, p_annotation=0.15, main_autograd_op=False, pid_tid_clash=False, zero_tie=False,
+    p_leaf_children=(0, 3), ops_pool=None, p_unlaunched=0.0, sync_straddle=False, source_counters=False, outer_frame=False, corr_zero=False, small_corr=False, tid_base=None, tid_desc=False, post_launch=False, exotic_launch=False, multi_process=False, graph_launch=False, p_zero_launch=0.0, nested_driver=False, p_annotation=0.15, main_autograd_op=False, pid_tid_clash=False, zero_tie=False, sync_tie=False,
 )
 
 
@@ -184,7 +184,9 @@ class Sim:
         self._nest_driver(th, H, "cuStreamSynchronize")
         S = self.X("cuda_sync", "Stream Sync", self.p["device_pid"], s, ts + 1, end - ts - 2,
                    {"correlation": c, "stream": s, "device": self.p["device_pid"], "cuda_sync_kind": "Stream Sync", "context": 1, "External id": c})
-        self.sync_until[s] = max(self.sync_until[s], end)
+        # sync_tie: work that another thread enqueues during the wait may start in the very instant the sync record completes (one
+        # clock tick before the host call returns) and run on after the call has returned: the call did not wait for it
+        self.sync_until[s] = max(self.sync_until[s], end - 1 if (self.p["sync_tie"] and end - ts - 2 > 0 and self.r.random() < 0.7) else end)
         self.truth["stream_sync"].append((H, S, s))
         th["t"] = end + self.d(0, 3)
 
@@ -196,7 +198,7 @@ class Sim:
         self._nest_driver(th, H, "cuCtxSynchronize")
         S = self.X("cuda_sync", "Context Sync", self.p["device_pid"], -1, ts + 1, end - ts - 2,
                    {"correlation": c, "stream": -1, "device": self.p["device_pid"], "cuda_sync_kind": "Context Sync", "context": 1, "External id": c})
-        self.dev_sync_until = max(self.dev_sync_until, end)
+        self.dev_sync_until = max(self.dev_sync_until, end - 1 if (self.p["sync_tie"] and end - ts - 2 > 0 and self.r.random() < 0.7) else end)
         self.truth["ctx_sync"].append((H, S))
         th["t"] = end + self.d(0, 3)
 
